@@ -264,6 +264,8 @@ res))
 
 /-- `x³ + b` as the Go text computes it (`Square`, `Mul`, `Add` of `bCurveCoeff`) -/
 def goRhs {F : Type} (P : Prims F) (x : F) : F := P.add (P.mul (P.square x) x) P.bCurveCoeff
+/-- G2 of bw6-633 / bw6-761: `x³ + b'` with the twist coefficient -/
+def goRhsTwist {F : Type} (P : Prims F) (x : F) : F := P.add (P.mul (P.square x) x) P.bTwistCurveCoeff
 /-- stark-curve: `x³ + x + b` -/
 def goRhsA1 {F : Type} (P : Prims F) (x : F) : F := P.add (P.add (P.mul (P.square x) x) x) P.bCurveCoeff
 
@@ -328,6 +330,16 @@ theorem bw6_761_RawBytes : GV.Gen.PointCodec.bw6_761.G1_RawBytes P pX pY = goRaw
 theorem secp256k1_setBytes : GV.Gen.PointCodec.secp256k1.G1_setBytes P pX pY buf sub = goSetBytesRaw 32 P pX pY buf sub := rfl
 theorem secp256k1_SetBytes : GV.Gen.PointCodec.secp256k1.G1_SetBytes P pX pY buf = goSetBytesRaw 32 P pX pY buf true := rfl
 theorem secp256k1_RawBytes : GV.Gen.PointCodec.secp256k1.G1_RawBytes P pX pY = goRawBytesRaw 32 P pX pY := rfl
+
+theorem bw6_633_G2_setBytes : GV.Gen.PointCodec.bw6_633.G2_setBytes P pX pY buf sub = goSetBytes3 80 (goRhsTwist P) P pX pY buf sub := rfl
+theorem bw6_633_G2_SetBytes : GV.Gen.PointCodec.bw6_633.G2_SetBytes P pX pY buf = goSetBytes3 80 (goRhsTwist P) P pX pY buf true := rfl
+theorem bw6_633_G2_Bytes : GV.Gen.PointCodec.bw6_633.G2_Bytes P pX pY = goBytes3 80 P pX pY := rfl
+theorem bw6_633_G2_RawBytes : GV.Gen.PointCodec.bw6_633.G2_RawBytes P pX pY = goRawBytes3 80 P pX pY := rfl
+
+theorem bw6_761_G2_setBytes : GV.Gen.PointCodec.bw6_761.G2_setBytes P pX pY buf sub = goSetBytes3 96 (goRhsTwist P) P pX pY buf sub := rfl
+theorem bw6_761_G2_SetBytes : GV.Gen.PointCodec.bw6_761.G2_SetBytes P pX pY buf = goSetBytes3 96 (goRhsTwist P) P pX pY buf true := rfl
+theorem bw6_761_G2_Bytes : GV.Gen.PointCodec.bw6_761.G2_Bytes P pX pY = goBytes3 96 P pX pY := rfl
+theorem bw6_761_G2_RawBytes : GV.Gen.PointCodec.bw6_761.G2_RawBytes P pX pY = goRawBytes3 96 P pX pY := rfl
 
 end inst
 
